@@ -277,21 +277,30 @@ def cmd_check(pid, tier):
     if b["unknown"]:
         from . import shrink
 
-        u = b["unknown"][0]
         nviol += len(b["unknown"])
-        try:
-            scn, v, dig, minimised = shrink.minimise(pid, u, budget_s=float(os.environ.get("VERIF_SHRINK_S", "120")))
-            path = core.write_replay(pid, u["seed"], scn, v, dig, minimised)
-            ok, out = _fresh_replay(path)
-            if ok:
-                lines.append(f"VIOLATION property={pid} replay={path}")
-                lines.append(f"  oracle={v['oracle']} detail={json.dumps(v['detail'], default=str)[:800]}")
-                rc = 1
-            else:
-                lines.append(f"HARNESS-ERROR: violation at seed {u['seed']} did not reproduce in a fresh interpreter:\n{out}")
-                rc = 2
-        except Exception as e:
-            lines.append(f"HARNESS-ERROR: minimisation/replay failed: {type(e).__name__}: {e}\n{traceback.format_exc()}")
+        errs = []
+        for u in b["unknown"][:4]:
+            try:
+                scn, v, dig, minimised = shrink.minimise(pid, u, budget_s=float(os.environ.get("VERIF_SHRINK_S", "120")))
+                path = core.write_replay(pid, u["seed"], scn, v, dig, minimised)
+                ok, out = _fresh_replay(path)
+                if not ok and minimised:
+                    # the minimiser runs many candidates in ONE process; if the system under test keeps process-wide state
+                    # the minimised scenario may depend on it: fall back to the scenario exactly as generated
+                    path = core.write_replay(pid, u["seed"], u["scenario"], u["violation"], None, False)
+                    ok, out = _fresh_replay(path)
+                    v = u["violation"]
+                if ok:
+                    lines.append(f"VIOLATION property={pid} replay={path}")
+                    lines.append(f"  oracle={v['oracle']} detail={json.dumps(v['detail'], default=str)[:800]}")
+                    rc = 1
+                    break
+                errs.append(f"violation at seed {u['seed']} did not reproduce in a fresh interpreter:\n{out[-600:]}")
+            except Exception as e:
+                errs.append(f"minimisation/replay of seed {u['seed']} failed: {type(e).__name__}: {e}")
+        if rc != 1:
+            for e_ in errs:
+                lines.append("HARNESS-ERROR: " + e_)
             rc = 2
     if b["harness_error"]:
         lines.append(f"HARNESS-ERROR: {b['harness_error']}")
